@@ -45,6 +45,8 @@ def targeted(r):
                       (dict(regexes=[r"\.zip$"]), ["/files/big.zip", "http://cdn.example/x.zip"]),
                       (dict(regexes=[r"/never/", r"\.zip$"], exclusionFileTrailingNewline=False), ["/files/big.zip"]),
                       (dict(regexes=[r"\.zip$"], exclusionFileTrailingNewline=False), ["/files/big.zip", "http://cdn.example/x.zip"]),
+                      # an exclusion file that cannot be read to its end (a line beyond the reader's limit): refuse to start, or enforce every regex
+                      (dict(regexes=[r"\.zip$"], exclusionFileLongLine=True), ["/files/big.zip", "http://cdn.example/x.zip"]),
                       (dict(includeStrings=["/img/", "cdn.example/ok"]), ["/other/o.png", "http://cdn.example/no.js"]),
                       (dict(excludeHosts=list(stage.DEFAULT_EXCLUDED) + ["cdn.example"]), ["http://cdn.example/x.js", "//cdn.example/y.js"]),
                       (dict(), ["//localhost/a.png", "//127.0.0.1:8080/b.png", "//intranet/c.png", "//archive.org/d.png", "//web.archive-it.org/e.png"])):
@@ -75,6 +77,11 @@ def run_targeted(ctx, check):
             if seed not in site.pages:
                 site.pages[seed] = site.pages["http://site.example/"]
             act, tree, trace = stage.run_seed(run, cfg, site, seed, seed_id="t%d" % k, dc_match=stage.dc_matcher(cfg), regex_match=stage.regex_matcher(cfg))
+            if act == "refused":
+                if cfg.get("exclusionFileLongLine") and "too long" in trace["refused"]:
+                    ctx.count("config-refused:unreadable-exclusion-file")
+                    continue
+                raise RuntimeError("configuration refused: " + trace["refused"])
             check(ctx, cfg, site, seed, act, tree, trace, run, 0)
             ctx.count("targeted-scenarios")
     finally:
